@@ -3,6 +3,8 @@
 package internal
 
 import (
+	"time"
+
 	vrt "github.com/emersion/go-webdav/internal/zz_verifrt"
 )
 
@@ -65,4 +67,133 @@ func VerifH_C16_Overwrite() {
 	ov := vrt.Bool("ov")
 	b2, err2 := ParseOverwrite(FormatOverwrite(ov))
 	vrt.Assert(err2 == nil && b2 == ov, "ParseOverwrite(FormatOverwrite(b)) == b")
+}
+
+// VerifH_C16_ETag: entity tags through MarshalText/UnmarshalText (XML) and
+// String (headers): round trip for every byte string up to maxlen bytes;
+// texts that are not a double-quoted string are refused; never panics.
+func VerifH_C16_ETag() {
+	n := vrt.Choose("len", vrt.Param("etaglen", 2)+1)
+	s := vrt.StrN("tag", n)
+	text, err := ETag(s).MarshalText()
+	vrt.Assert(err == nil, "ETag.MarshalText cannot fail")
+	vrt.Assert(string(text) == ETag(s).String(), "header form and XML form of a tag are the same text")
+	var back ETag
+	err = back.UnmarshalText(text)
+	vrt.Assert(err == nil && string(back) == s, "ETag round trip: Unmarshal(Marshal(s)) == s")
+	vrt.Reach("etag-roundtrip")
+}
+
+// VerifH_C16_ETagReject: every text of up to maxlen bytes that is not of the
+// form "..." (first and last byte a double quote, at least two bytes) is
+// refused; accepted texts never panic.
+func VerifH_C16_ETagReject() {
+	n := vrt.Choose("len", vrt.Param("textlen", 3)+1)
+	text := vrt.StrN("text", n)
+	var e ETag
+	err := e.UnmarshalText([]byte(text))
+	quoted := n >= 2 && text[0] == '"' && text[n-1] == '"'
+	if !quoted {
+		vrt.Assert(err != nil, "text that is not a double-quoted string is refused as entity tag")
+		vrt.Assert(e == "", "refused entity tag leaves the value untouched")
+	}
+	vrt.Reach("etag-reject")
+}
+
+// VerifH_C16_Status: status lines: any code 100..999 with any reason phrase
+// of up to maxlen bytes round-trips; texts with fewer than three fields or a
+// non-numeric code are refused.
+func VerifH_C16_Status() {
+	code := vrt.IntRange("code", 100, 999)
+	n := 1 + vrt.Choose("reasonlen", vrt.Param("reasonlen", 3))
+	reason := vrt.StrN("reason", n)
+	st := Status{Code: code, Text: reason}
+	text, err := st.MarshalText()
+	vrt.Assert(err == nil, "Status.MarshalText cannot fail")
+	var back Status
+	err = back.UnmarshalText(text)
+	vrt.Assert(err == nil && back.Code == code && back.Text == reason, "status line round trip")
+	vrt.Reach("status-roundtrip")
+}
+
+func VerifH_C16_StatusReject() {
+	n := vrt.Choose("len", vrt.Param("textlen", 5)+1)
+	text := vrt.StrN("text", n)
+	var st Status
+	err := st.UnmarshalText([]byte(text))
+	// reference: "HTTP-version SP code SP reason": at least two spaces
+	spaces := 0
+	for i := 0; i < n; i++ {
+		if text[i] == ' ' {
+			spaces++
+		}
+	}
+	if spaces < 2 {
+		vrt.AssertKnown(err != nil, "text with fewer than three fields is refused as status line", "C16-status-empty-text", n == 0)
+		if err != nil {
+			vrt.Assert(st.Code == 0 && st.Text == "", "refused status line leaves the value untouched")
+		}
+	}
+	vrt.Reach("status-reject")
+}
+
+// VerifH_C16_Href: hrefs: any absolute path whose first segment is
+// non-empty survives Marshal/Unmarshal byte for byte (every byte value, up
+// to maxlen bytes), through the real net/url escaping and parsing code.
+func VerifH_C16_Href() {
+	n := 2 + vrt.Choose("len", vrt.Param("hreflen", 3))
+	p := vrt.StrN("path", n)
+	vrt.Assume(p[0] == '/' && p[1] != '/')
+	h := Href{Path: p}
+	text, err := h.MarshalText()
+	vrt.Assert(err == nil, "Href.MarshalText cannot fail")
+	var back Href
+	err = back.UnmarshalText(text)
+	vrt.Assert(err == nil, "an href produced by MarshalText is accepted by UnmarshalText")
+	if err == nil {
+		vrt.Assert(back.Path == p, "href round trip is byte for byte")
+		vrt.Assert(back.Scheme == "" && back.Host == "" && back.RawQuery == "" && back.Fragment == "", "path-only href stays path-only")
+	}
+	vrt.Reach("href-roundtrip")
+}
+
+// VerifH_C16_HrefNoPanic: UnmarshalText never panics on any text.
+func VerifH_C16_HrefNoPanic() {
+	n := vrt.Choose("len", vrt.Param("textlen", 4)+1)
+	text := vrt.StrN("text", n)
+	var h Href
+	err := h.UnmarshalText([]byte(text))
+	if err != nil {
+		vrt.Assert(h.Path == "" && h.Host == "", "refused href leaves the value untouched")
+	}
+	vrt.Reach("href-any")
+}
+
+// VerifH_C16_HTTPDate: getlastmodified text: the marshalled text does not
+// depend on the zone the caller's value is in, and unmarshal(marshal(t)) is
+// the same instant to the second. time.Format/Parse are uninterpreted
+// functions of (layout, instant, zone) with the law parse(format(t)) = t.
+func VerifH_C16_HTTPDate() {
+	z1, z2 := vrt.Choose("zone1", 3), vrt.Choose("zone2", 3)
+	t1 := Time(vrt.TimeIn("t", z1))
+	text1, err := t1.MarshalText()
+	vrt.Assert(err == nil, "Time.MarshalText cannot fail")
+	// the same instant carried in another zone
+	t2 := Time(time.Time(t1).In(verifZone(z2)))
+	text2, _ := t2.MarshalText()
+	vrt.Assert(string(text1) == string(text2), "HTTP date text depends only on the instant, not on the zone")
+	var back Time
+	err = back.UnmarshalText(text1)
+	vrt.Assert(err == nil && time.Time(back).Equal(time.Time(t1)), "HTTP date round trip to the second")
+	vrt.Reach("httpdate")
+}
+
+func verifZone(z int) *time.Location {
+	switch z {
+	case 1:
+		return time.FixedZone("VZ1", 3600)
+	case 2:
+		return time.FixedZone("VZ2", -18000)
+	}
+	return time.UTC
 }
